@@ -1,4 +1,4 @@
-import MgpuProofs.C18SysFinal
+import MgpuProofs.C18SysLive3
 import MgpuProofs.Props.C18
 /-! # C18 — the closed n-GPU system (second and third sentence of the property, system level)
 
@@ -189,7 +189,7 @@ theorem sys_live (cfgs : List Cfg) (ops0 : List SOp) (σ : Nat → SOp)
   have h1 := sok_run ops0 _ (sinv_init cfgs) (sok_init cfgs hmap) hw
   have hv := svalid_run _ ops0 (sinv_init cfgs) (svalid_init cfgs hb)
   have hk := cfgOk_run ops0 _ (cfgOk_init cfgs hcfg)
-  have hg := good_along _ σ hq h1.1 hv h1.2 hk hcf
+  have hg := good_along _ σ (fun t => wfop_of_not_input _ _ (hq t)) h1.1 hv h1.2 hk hcf
   have hlen : (srun (initSys cfgs) ops0).nodes.length = cfgs.length := by
     have : ∀ (ops : List SOp) (y : Sys), (srun y ops).nodes.length = y.nodes.length := by
       intro ops
@@ -240,6 +240,50 @@ example :
   have hlt : t % (fairList 2).length < (fairList 2).length := Nat.mod_lt _ (by decide)
   have : ∀ i, i < (fairList 2).length → isInput ((fairList 2).getD i (.tick 0)) = false := by decide
   exact this _ hlt
+
+/-- **Liveness of the drain the driver really performs** (`Driver.initiateRDMADrain` on a page
+migration drains the RDMA engines of ALL GPUs while the compute units keep running). From any reachable
+state in which every engine is paused with no restart pending, on every fair schedule without further
+control commands — the L1 sides may go on issuing (well-formed) requests for ever: they pile up in the
+bounded inside ports — the system settles: every transaction in flight completes and every drain is
+acknowledged (`Settled`: no engine draining, acknowledgements taken), all engines still paused.
+Measure: `sysMu2` = hops left + room left in the inside ports. -/
+theorem sys_live_drain_all (cfgs : List Cfg) (ops0 : List SOp) (σ : Nat → SOp)
+    (hcfg : ∀ c ∈ cfgs, 0 < c.cap ∧ 0 < c.wReqOut ∧ 0 < c.wRspOut ∧ 0 < c.wReqIn ∧ 0 < c.wRspIn)
+    (hmap : ∀ c ∈ cfgs, 0 < c.isz ∧ 0 < c.k) (hb : ∀ c ∈ cfgs, c.nBanks ≤ cfgs.length)
+    (hw : WFRun (initSys cfgs) ops0) (hp : AllPaused (srun (initSys cfgs) ops0))
+    (hno : ∀ t a k, σ t ≠ SOp.ctl a k)
+    (hwf : ∀ t, WFOp (sysAt (srun (initSys cfgs) ops0) σ t) (σ t))
+    (hfair : ∀ o0 ∈ fairList cfgs.length, ∀ t, ∃ t', t ≤ t' ∧ sameKind (σ t') o0)
+    (hcf : ∀ t (b : Nat) (B : Node), (sysAt (srun (initSys cfgs) ops0) σ t).nodes[b]? = some B → B.s.cfault = none) :
+    ∃ t, Settled (sysAt (srun (initSys cfgs) ops0) σ t) ∧ AllPaused (sysAt (srun (initSys cfgs) ops0) σ t) := by
+  have h1 := sok_run ops0 _ (sinv_init cfgs) (sok_init cfgs hmap) hw
+  have hv := svalid_run _ ops0 (sinv_init cfgs) (svalid_init cfgs hb)
+  have hk := cfgOk_run ops0 _ (cfgOk_init cfgs hcfg)
+  have hg := good_along _ σ hwf h1.1 hv h1.2 hk hcf
+  have hlen : (srun (initSys cfgs) ops0).nodes.length = cfgs.length := by
+    have : ∀ (ops : List SOp) (y : Sys), (srun y ops).nodes.length = y.nodes.length := by
+      intro ops
+      unfold srun
+      induction ops with
+      | nil => intro y; rfl
+      | cons o os ih => intro y; rw [List.foldl_cons, ih, sstep_length]
+    rw [this]; simp [initSys]
+  exact eventually_settled_paused _ σ hp hno (by rw [hlen]; exact hfair) hg
+
+/-- both engines of `demo2` took their drain command with a request in flight to each other
+    (`demo2Ops` after 8 moves); then the L1 sides keep issuing reads for ever (`rrIssue`): after 200 moves
+    both drains are acknowledged, both old requests answered, the new requests wait in the full inside ports -/
+def demo2Paused : Sys := sysAt (srun (initSys demo2) (demo2Ops.take 8)) (rrIssue 2 0x1040) 200
+
+example :
+    AllPaused (srun (initSys demo2) (demo2Ops.take 8)) ∧
+    (∀ o0 ∈ fairList 2, ∀ t, ∃ t', t ≤ t' ∧ sameKind (rrIssue 2 0x1040 t') o0) ∧
+    Settled demo2Paused ∧
+    demo2Paused.nodes.map (fun A => (A.s.pause, A.s.draining, A.ctlGot)) =
+      [(true, false, [.drainAck 3]), (true, false, [.drainAck 3])] ∧
+    demo2Paused.nodes.map (fun A => (A.got.map (·.rspTo), A.s.io.reqIn.length)) = [([0], 1), ([0], 1)] := by
+  refine ⟨allPaused_of_B (by decide +kernel), rrIssue_fair 2 0x1040, (settledB_iff _).mp (by decide +kernel), by decide +kernel, by decide +kernel⟩
 
 /-! ## the responders' fairness is necessary -/
 
